@@ -3,8 +3,8 @@
 import sys, os, json, shutil, re
 ID, k, detected, how = sys.argv[1], sys.argv[2], sys.argv[3], sys.argv[4]
 R = os.environ.get("ROUND", "1")
-src = {"1": f"/tmp/seed/out/{ID}/{k}", "2": f"/tmp/seed/out2/{ID}/{k}", "3": f"/tmp/seed/out3/{ID}/{k}", "4": f"/tmp/seed/out4/{ID}/{k}", "5": f"/tmp/seed/out5/{ID}/{k}"}[R]
-dst = {"1": f"/verif/seeded/{ID}-{k}", "2": f"/verif/seeded/{ID}-r2-{k}", "3": f"/verif/seeded/{ID}-r3-{k}", "4": f"/verif/seeded/{ID}-r4-{k}", "5": f"/verif/seeded/{ID}-r5-{k}"}[R]
+src = {"1": f"/tmp/seed/out/{ID}/{k}", "2": f"/tmp/seed/out2/{ID}/{k}", "3": f"/tmp/seed/out3/{ID}/{k}", "4": f"/tmp/seed/out4/{ID}/{k}", "5": f"/tmp/seed/out5/{ID}/{k}", "6": f"/tmp/seed/out6/{ID}/{k}"}[R]
+dst = {"1": f"/verif/seeded/{ID}-{k}", "2": f"/verif/seeded/{ID}-r2-{k}", "3": f"/verif/seeded/{ID}-r3-{k}", "4": f"/verif/seeded/{ID}-r4-{k}", "5": f"/verif/seeded/{ID}-r5-{k}", "6": f"/verif/seeded/{ID}-r6-{k}"}[R]
 os.makedirs(dst, exist_ok=True)
 shutil.copy(src + "/patch.diff", dst + "/patch.diff")
 for name in ("demo", "demo.sh"):
